@@ -58,6 +58,12 @@ class Path:
         self.how = how          # 'return' | 'raise' | 'fall' | 'continue' | 'break'
         self.effects = effects  # [AST expr/stmt substituted] in order
         self.lineno = lineno
+        # 'try': the path runs through a try statement with handlers (the handlers themselves are not followed)
+        self.flags = {"try"} if any(isinstance(e, ast.Expr) and isinstance(e.value, ast.Name) and
+                                    e.value.id == "__try_except__" for e in effects) else set()
+        if self.flags:
+            self.effects = [e for e in effects if not (isinstance(e, ast.Expr) and isinstance(e.value, ast.Name)
+                                                       and e.value.id == "__try_except__")]
 
     def conds_open(self):
         """conditions that were not decided by constant folding"""
@@ -152,6 +158,35 @@ def fold_const(e):
     return e
 
 
+def bind_call(callee, call, bound_method):
+    """parameter -> argument AST for a call of a FunctionDef (positional, keyword, defaults); None if it cannot be bound"""
+    if any(isinstance(a, ast.Starred) for a in call.args) or any(k.arg is None for k in call.keywords):
+        return None
+    if callee.args.vararg or callee.args.kwarg:
+        return None
+    pos = [a.arg for a in callee.args.posonlyargs + callee.args.args]
+    static = any(isinstance(d, ast.Name) and d.id == "staticmethod" for d in callee.decorator_list)
+    if pos and pos[0] in ("self", "cls") and bound_method and not static:
+        pos = pos[1:]
+    kwonly = [a.arg for a in callee.args.kwonlyargs]
+    if len(call.args) > len(pos):
+        return None
+    env = dict(zip(pos, call.args))
+    for k in call.keywords:
+        if k.arg in env or k.arg not in pos + kwonly:
+            return None
+        env[k.arg] = k.value
+    defaults = callee.args.defaults
+    for p, d in zip(pos[len(pos) - len(defaults):], defaults):
+        env.setdefault(p, d)
+    for p, d in zip(kwonly, callee.args.kw_defaults):
+        if d is not None:
+            env.setdefault(p, d)
+    if any(p not in env for p in pos + kwonly):
+        return None
+    return env
+
+
 class _Fold(ast.NodeTransformer):
     """applies a caller-supplied rewriting `fold(node) -> node | None` bottom-up, inlines pure-expression callees
     (lambdas, operator-module functions, single-return helpers, constant-keyed table look-ups) and folds constants"""
@@ -208,15 +243,15 @@ class _Fold(ast.NodeTransformer):
 
     def visit_Call(self, node):
         node = self.generic_visit(node)
-        if not isinstance(node, ast.Call) or node.keywords or any(isinstance(a, ast.Starred) for a in node.args) or self.depth <= 0:
+        if not isinstance(node, ast.Call) or any(isinstance(a, ast.Starred) for a in node.args) or self.depth <= 0:
             return node
         f = node.func
-        e = operator_call_as_expr(f, node.args)
+        e = operator_call_as_expr(f, node.args) if not node.keywords else None
         if e is not None:
             return fold_const(e) if isinstance(e, ast.Compare) else e
         if isinstance(f, ast.Name) and isinstance(self.inline.get(f.id), ast.Lambda):
             f = self.inline[f.id]
-        if isinstance(f, ast.Lambda):
+        if isinstance(f, ast.Lambda) and not node.keywords:
             params = [a.arg for a in f.args.args]
             if len(params) == len(node.args) and not f.args.kwonlyargs and not f.args.vararg:
                 body = subst(f.body, dict(zip(params, node.args)))
@@ -227,13 +262,11 @@ class _Fold(ast.NodeTransformer):
         elif isinstance(f, ast.Attribute) and isinstance(f.value, ast.Name) and f.value.id in ("self", "cls"):
             callee = self.inline.get(f"{f.value.id}.{f.attr}")
         if isinstance(callee, ast.FunctionDef):
-            params = [a.arg for a in callee.args.args]
-            if params and params[0] in ("self", "cls") and isinstance(f, ast.Attribute):
-                params = params[1:]
+            penv = bind_call(callee, node, isinstance(f, ast.Attribute))
             body = [b for b in callee.body if not (isinstance(b, ast.Expr) and isinstance(b.value, ast.Constant))]
-            if len(params) == len(node.args) and not callee.args.vararg and not callee.args.kwonlyargs:
+            if penv is not None:
                 # pure-expression callee: every path is `return E` after constant-decidable tests
-                ps = run_paths(body, env=dict(zip(params, node.args)), fold=self.fold, inline=self.inline, depth=self.depth - 1)
+                ps = run_paths(body, env=penv, fold=self.fold, inline=self.inline, depth=self.depth - 1)
                 if len(ps) == 1 and ps[0].how == "return" and not ps[0].effects and ps[0].ret is not None and not ps[0].conds_open():
                     return ps[0].ret
         return node
@@ -254,8 +287,7 @@ def run_paths(stmts, env=None, max_paths=256, decide=None, inline=None, fold=Non
         return folder.visit(copy.deepcopy(e))
 
     def callee_of(call):
-        if not inline or depth <= 0 or not isinstance(call, ast.Call) or call.keywords or \
-                any(isinstance(a, ast.Starred) for a in call.args):
+        if not inline or depth <= 0 or not isinstance(call, ast.Call):
             return None
         f = call.func
         c = None
@@ -265,12 +297,10 @@ def run_paths(stmts, env=None, max_paths=256, decide=None, inline=None, fold=Non
             c = inline.get(f"{f.value.id}.{f.attr}")
         if not isinstance(c, ast.FunctionDef):
             return None
-        params = [a.arg for a in c.args.args]
-        if params and params[0] in ("self", "cls") and isinstance(f, ast.Attribute):
-            params = params[1:]
-        if len(params) != len(call.args) or c.args.vararg or c.args.kwonlyargs:
+        penv = bind_call(c, call, isinstance(f, ast.Attribute))
+        if penv is None:
             return None
-        return c, dict(zip(params, call.args))
+        return c, penv
 
     def go(stmts, i, env, conds, effects):
         if len(results) > max_paths:
@@ -400,6 +430,25 @@ def run_paths(stmts, env=None, max_paths=256, decide=None, inline=None, fold=Non
             if isinstance(s, ast.If):
                 test = F(subst(s.test, env))
                 rest = stmts[i:]
+                # a multi-path callee in the test position: expand it path by path
+                tcall, neg = test, False
+                if isinstance(tcall, ast.UnaryOp) and isinstance(tcall.op, ast.Not):
+                    tcall, neg = tcall.operand, True
+                hit = callee_of(tcall)
+                if hit is not None:
+                    callee, penv = hit
+                    body = [b for b in callee.body if not (isinstance(b, ast.Expr) and isinstance(b.value, ast.Constant))]
+                    for cp in run_paths(body, env=penv, max_paths=max_paths, decide=decide, inline=inline, fold=fold,
+                                        depth=depth - 1):
+                        if cp.how == "raise":
+                            results.append(Path(conds + cp.conds, env, cp.ret, "raise", effects + cp.effects, s.lineno))
+                            continue
+                        rv = cp.ret if cp.ret is not None else ast.Constant(value=None)
+                        if neg:
+                            rv = fold_const(ast.UnaryOp(op=ast.Not(), operand=rv))
+                        go([ast.If(test=rv, body=s.body, orelse=s.orelse, lineno=s.lineno)] + rest, 0, env,
+                           conds + cp.conds, effects + cp.effects)
+                    return
                 verdict = decide(test) if decide is not None else None
                 if verdict is None and isinstance(test, ast.Constant) and isinstance(test.value, (bool, int)):
                     verdict = bool(test.value)
@@ -420,6 +469,8 @@ def run_paths(stmts, env=None, max_paths=256, decide=None, inline=None, fold=Non
                 continue
             if isinstance(s, ast.Try):
                 rest = stmts[i:]
+                if s.handlers:
+                    effects = effects + [ast.Expr(value=ast.Name(id="__try_except__", ctx=ast.Load()))]
                 go(list(s.body) + list(s.orelse) + list(s.finalbody) + rest, 0, env, conds, effects)
                 return
             effects = effects + [s]
